@@ -2560,7 +2560,9 @@ impl Channel {
             old_secret,
         )?;
 
-        if let Some(secrets) = self.enforcement_state.counterparty_secrets.as_mut() {
+        // Only advance the state if nothing goes wrong: stage the new secret on a copy
+        let mut counterparty_secrets = self.enforcement_state.counterparty_secrets.clone();
+        if let Some(secrets) = counterparty_secrets.as_mut() {
             let backwards_num = INITIAL_COMMITMENT_NUMBER - revoke_num;
             if secrets.provide_secret(backwards_num, old_secret.secret_bytes()).is_err() {
                 error!(
@@ -2579,6 +2581,7 @@ impl Channel {
         }
 
         validator.set_next_counterparty_revoke_num(&mut self.enforcement_state, revoke_num + 1)?;
+        self.enforcement_state.counterparty_secrets = counterparty_secrets;
 
         trace_enforcement_state!(self);
         self.persist()?;
